@@ -1,26 +1,28 @@
-(* Property theorems of the PoA cluster (C24, proof (partial)). Statements, [exact],
-   Print Assumptions only.  Model: PoA/Model.v (MainTask state and operations; ports are scripted
-   outcomes, the wall clock is an input, the monotonic clock is part of the state). *)
-From FC Require Import PoA.Model PoA.Proofs.
+(* Property theorems of the PoA cluster (C24). Statements, [exact], Print Assumptions only.
+   Model: PoA/Model.v -- MainTask state and operations (ports are scripted outcomes, the wall
+   clock is an input, the monotonic clock is part of the state), the SyncTask state machine, and
+   the whole operation fstep (ensure_synced; run-loop iteration; what the sync task sees of it).
+   Pcheck = trace_okb / fop_okb / op_okb on the implementation's observed log. *)
+From FC Require Import PoA.Model PoA.Proofs PoA.ProofsParse PoA.ProofsSpec PoA.ProofsRefine PoA.ProofsSync.
 Open Scope N_scope.
 
-(* commit_requests_consecutive: every leader_state / produce_and_execute_block / commit_result
-   request of every operation, from every state, is for last_height + 1 as known when it is made
-   (the ghost last field of the events); execute_and_commit requests are above the known height
-   (exactly the next one only while no import of the batch failed: see exec_after_failed_import_refuted). *)
+(* ---------------- structure of the requests ---------------- *)
+
+(* every leader_state / produce_and_execute_block / commit_result request of every operation,
+   from every state, is for last_height + 1 as known when it is made (the ghost last field of the
+   events); execute_and_commit requests are above the known height *)
 Theorem requests_next_height : forall st o, Forall req_ok (snd (step st o)).
 Proof. exact requests_next_height_all. Qed.
 Print Assumptions requests_next_height.
 
-(* sealed_before_commit, failure_no_advance, timestamps_monotone_wrt_known, for produce_block (the only
-   place that produces, seals and commits): the port calls are a prefix of
-   [produce h t; seal h; commit_result h t sealed]; success = all three happened and the state is
-   (h, t, creation instant); any failure leaves last_height / last_timestamp / last_block_created
-   and the database unchanged; a request is only made with a block time >= last_timestamp. *)
+(* produce_block: the port calls are a prefix of [produce h t; seal h; commit_result h t sealed;
+   announcement (not before the deadline)]; success = all of them and the state becomes
+   (h, t, creation instant); any failure (producer / seal / commit error, production_timeout) leaves last_height / last_timestamp / last_block_created and the database unchanged;
+   a request is only made with a block time >= last_timestamp *)
 Theorem produce_block_contract : forall st signer h time src dl fail idx,
   let '(st', ok, called, ev) := produce_block st signer h time src dl fail idx in
-  (exists n, ev = firstn n (prod_events st h time src dl)) /\
-  (ok = true -> ev = prod_events st h time src dl /\ last_height st' = h /\
+  (exists n a', ev = firstn n (prod_events st h time src dl a') /\ (Z.max (now_i st) dl <= a')%Z) /\
+  (ok = true -> (exists a', ev = prod_events st h time src dl a') /\ last_height st' = h /\
                 last_timestamp st' = time /\ db st' = db_up (db st) h time /\
                 last_created st' = match trig st with
                                    | TOpen _ => Z.max dl (now_i st) | _ => now_i st end) /\
@@ -31,17 +33,102 @@ Theorem produce_block_contract : forall st signer h time src dl fail idx,
 Proof. exact produce_block_spec. Qed.
 Print Assumptions produce_block_contract.
 
-(* interval_deadline: under Trigger::Interval the run loop sleeps until
-   last_block_created + block_time (or not at all if that is past) and uses that instant as deadline. *)
-Theorem interval_deadline : forall st clock signer l fail bt,
+(* under Trigger::Interval the run loop sleeps until last_block_created + block_time (or not at
+   all if that is past) and uses that instant as deadline *)
+Theorem interval_deadline : forall st clock signer l fail mid bt,
   trig st = TInterval bt ->
   let dl := Z.max (now_i st) (last_created st + ms bt)%Z in
-  tick st clock signer l fail = try_to_produce_block (set_now st dl) clock signer l fail dl.
+  tick st clock signer l fail mid None = try_to_produce_block (set_now st dl) clock signer l fail mid dl.
 Proof. exact interval_deadline_all. Qed.
 Print Assumptions interval_deadline.
 
-(* A1. Block times vs. the database's latest block: holds when last_timestamp is that block's time
-   (or later); the DB-height resync keeps height-only, so it does not hold in general. *)
+(* ---------------- the checker: meaning and refinement ---------------- *)
+
+(* the log parser and the flattening of actions are inverse on canonical action lists: a log is
+   accepted iff it is a sequence of whole actions -- in particular every commit_result is directly
+   preceded by the seal of the same block, itself preceded by its production *)
+Theorem parse_flatten_inverse : forall evs xs,
+  parse evs = Some xs <-> evs = flatten xs /\ Forall canonical xs.
+Proof. exact parse_iff. Qed.
+Print Assumptions parse_flatten_inverse.
+
+(* Pcheck = 1 on an operation <-> OpSpec (ProofsSpec.v: act_spec / ReplaySpec / OpSpec) *)
+Theorem op_okb_sound : forall pre o post evs, op_okb pre o post evs = 1 <-> OpSpec pre o post evs.
+Proof. exact op_okb_iff. Qed.
+Print Assumptions op_okb_sound.
+
+(* every operation of the model passes its own checker, or lies in finding class A1 / B and
+   fails with exactly that class code *)
+Theorem step_refines : forall st o,
+  let '(post, res, evs) := step st o in
+  op_okb st o post evs = 1 \/
+  (op_okb st o post evs = 2 /\ ClassA1 st o = true) \/
+  (op_okb st o post evs = 3 /\ ClassB st o = true).
+Proof. exact step_refines_all. Qed.
+Print Assumptions step_refines.
+
+Theorem step_passes : forall st o,
+  ClassA1 st o = false -> ClassB st o = false ->
+  op_okb st o (fst (fst (step st o))) (snd (step st o)) = 1.
+Proof. exact step_passes_all. Qed.
+Print Assumptions step_passes.
+
+(* the same for whole operations (ensure_synced + run-loop iteration + sync task) and whole runs *)
+Theorem fstep_refines : forall f o, wf_fop o = true ->
+  let '(f', res, evs) := fstep f o in
+  let fo := fop_okb (fm f) o res (fm f') evs in
+  fo = 1 \/ (fo = 2 /\ FClassA1 f o = true) \/ (fo = 3 /\ FClassB f o = true).
+Proof. exact fstep_refines_all. Qed.
+Print Assumptions fstep_refines.
+
+Theorem frun_passes : forall ops f,
+  clean f ops = true -> trace_okb (fm f) ops (map obs_of (frun f ops)) = 1.
+Proof. exact frun_passes_all. Qed.
+Print Assumptions frun_passes.
+
+(* a predefined block for the next height is produced before anything else and passes the
+   checker whenever its time is not below last_timestamp (the code does not check that) *)
+Theorem predefined_block_passes : forall st clock signer l fail mid delta,
+  let '(post, res, evs) := tick st clock signer l fail mid (Some delta) in
+  op_okb st (OTick clock signer l fail mid (Some delta)) post evs = 1.
+Proof. exact tick_pd_passes. Qed.
+Print Assumptions predefined_block_passes.
+
+(* ---------------- sync task ---------------- *)
+
+(* if a run-loop iteration makes any port call, ensure_synced returned with a published Synced
+   header: it was already published, or the sync task was in SufficientPeers and the iteration
+   waited for the time_until_synced timer *)
+Theorem produces_only_when_synced : forall f clock signer l fail mid pd,
+  let '(f', res, evs) := fstep f (FTick clock signer l fail mid pd) in
+  evs <> [] ->
+  exists st2 h t,
+    r_ens res = Some (true, st2, Some (h, t)) /\
+    (s_pub (fs f) = Some (h, t) \/
+     (s_pub (fs f) = None /\ s_inner (fs f) = ISufficient /\ s_hdr (fs f) = (h, t) /\
+      (s_next (fs f) <= now_i st2)%Z)).
+Proof. exact produces_only_when_synced_all. Qed.
+Print Assumptions produces_only_when_synced.
+
+(* along every run the published state is Synced(header) exactly when the inner state is Synced
+   with that header *)
+Theorem sync_published_iff_synced : forall tr h0 t0 c0 mn tus ops,
+  Forall (fun x => sync_invb (fs (fst (fst x))) = true) (frun (finit tr h0 t0 c0 mn tus) ops).
+Proof. intros. apply frun_keeps_inv. apply inv_init. Qed.
+Print Assumptions sync_published_iff_synced.
+
+Theorem sync_invb_meaning : forall s, sync_invb s = true ->
+  match s_pub s with
+  | Some hdr => (exists has, s_inner s = ISynced has) /\ s_hdr s = hdr
+  | None => forall has, s_inner s <> ISynced has
+  end.
+Proof. exact sync_invb_spec. Qed.
+Print Assumptions sync_invb_meaning.
+
+(* ---------------- findings ---------------- *)
+
+(* A1. Block times vs. the database's latest block: holds when last_timestamp is that block's
+   time (or later); the DB-height resync keeps height-only, so it does not hold in general *)
 Theorem block_time_vs_db_partial : forall st signer h time src dl fail idx dh dt,
   db st = Some (dh, dt) -> dt <= last_timestamp st ->
   Forall (fun e => match e with EProduce _ t _ _ _ _ => dt <= t | _ => True end)
@@ -57,12 +144,34 @@ Print Assumptions resync_keeps_timestamp.
 
 Theorem block_time_vs_db_refuted :
   exists st clock, db st = Some (2, 1010) /\ last_height st < 2 /\
-    In (EProduce 3 1003 0 1000%Z 1000%Z 2) (snd (tick st clock true LLeader None)).
+    In (EProduce 3 1003 0 1000%Z 1000%Z 2) (snd (tick st clock true LLeader None None None)).
 Proof. exact block_time_vs_db_refuted_all. Qed.
 Print Assumptions block_time_vs_db_refuted.
 
+(* A1 through the whole flow: Synced on block 1, ensure_synced passes, block (2, 1010) arrives by
+   another path while the iteration waits for its deadline, block 3 is requested with time 1003 *)
+Theorem a1_during_run_refuted :
+  let f := finit (TInterval 1) 1 1000 1000 0 0 in
+  let '(f', res, evs) := fstep f (FTick 1003 true LLeader None (Some (2, 1010)) None) in
+  sync_invb (fs f) = true /\ s_pub (fs f) = Some (1, 1000) /\
+  evs = [EP2p 2 1010 1000%Z; ELeader 3 2; EProduce 3 1003 0 1000%Z 1000%Z 2; ESeal 3;
+         ECommit 3 1003 true 2; EImported 3 1003 true 1000%Z] /\
+  db (fm f') = Some (3, 1003).
+Proof. exact a1_during_run_refuted_all. Qed.
+Print Assumptions a1_during_run_refuted.
+
+(* B. after a failed reconciliation import the next block of the batch is still requested *)
 Theorem exec_after_failed_import_refuted :
   exists st, last_height st = 4 /\
-    In (EExec 6 1005 4) (snd (tick st 1011 true (LBlocks [(1, 1004, false); (2, 1005, true)]) None)).
+    In (EExec 6 1005 4) (snd (tick st 1011 true (LBlocks [(1, 1004, false); (2, 1005, true)]) None None None)).
 Proof. exact exec_after_failed_import_refuted_all. Qed.
 Print Assumptions exec_after_failed_import_refuted.
+
+(* C (liveness, outside the statement of C24). With time_until_synced = 0 the sync task has no
+   timer: once it is not Synced, no sequence of peer counts, blocks and clock readings makes it
+   publish Synced again (so production stops for good) *)
+Theorem no_timer_never_synced : forall evs s now,
+  s_period s = None -> (forall has, s_inner s <> ISynced has) -> s_pub s = None ->
+  s_pub (fold_left (fun s e => sev_step s now e) evs s) = None.
+Proof. exact no_timer_never_synced_all. Qed.
+Print Assumptions no_timer_never_synced.
